@@ -39,6 +39,10 @@ func finalSize(h *rtwire.Hist) int {
 func addQueries(r *vproto.Rng, h *rtwire.Hist, nq int) {
 	size := finalSize(h)
 	ks := []int{0, 1, 2, 3, size - 1, size, size + 3, 0, 3, 2}
+	sc := h.Scale
+	if sc == 0 {
+		sc = 1
+	}
 	h.KQs = []rtwire.KQ{}
 	for i := 0; i < nq; i++ {
 		o := h.Pool[r.Intn(len(h.Pool))]
@@ -51,15 +55,21 @@ func addQueries(r *vproto.Rng, h *rtwire.Hist, nq int) {
 		case 2: // on an edge
 			x, y = o.MinX, (o.MinY+o.MaxY)/2
 		case 3: // just outside
-			x, y = o.MaxX+1, o.MaxY+1
+			x, y = o.MaxX+sc, o.MaxY+sc
 		case 4: // far outside
-			x, y = float64(r.Range(-300, -100)), float64(r.Range(150, 400))
+			x, y = float64(r.Range(-300, -100))*sc, float64(r.Range(150, 400))*sc
 		case 5: // equidistant-prone grid point
-			x, y = float64(r.Range(0, 10)*10), float64(r.Range(0, 10)*10)
+			x, y = float64(r.Range(0, 10)*10)*sc, float64(r.Range(0, 10)*10)*sc
 		default:
-			x, y = float64(r.Range(-10, 110)), float64(r.Range(-10, 110))
+			x, y = float64(r.Range(-10, 110))*sc, float64(r.Range(-10, 110))*sc
+			if sc < 0.01 { // lattice / tiny units: anywhere in and around the unit square
+				x, y = float64(r.Range(-100, 1124))/1024, float64(r.Range(-100, 1124))/1024
+			}
 		}
 		k := ks[(i+r.Intn(2))%len(ks)]
+		if i%3 == 2 { // any k in 1..size+3
+			k = r.Range(1, size+3)
+		}
 		if k < 0 {
 			k = 0
 		}
@@ -76,6 +86,36 @@ func gen(seed uint64, tier string) []*rtwire.Hist {
 		addQueries(r, h, 12)
 		hs = append(hs, h)
 	}
+	// the same object inserted twice, deleted once, then asked for everything (k >= Size)
+	for ki, kind := range rtwire.Kinds {
+		pool := []rtwire.Box{{MinX: 0, MinY: 0, MaxX: 0, MaxY: 0}, {MinX: 3, MinY: 1, MaxX: 3, MaxY: 1}, {MinX: 7, MinY: 2, MaxX: 7, MaxY: 2}, {MinX: 9, MinY: 9, MaxX: 9, MaxY: 9}}
+		ops := []rtwire.Op{{ID: 0}, {ID: 0}, {ID: 1}, {ID: 2}, {Del: true, ID: 0}}
+		if ki == 1 {
+			ops = []rtwire.Op{{ID: 1}, {ID: 2}, {ID: 2}, {ID: 2}, {ID: 3}, {Del: true, ID: 2}, {ID: 0}}
+		}
+		h := &rtwire.Hist{Class: "nn-corpus-dup-delete-once", Min: 2, Max: 4 + ki, Kind: kind, Pool: pool, Ops: ops, Queries: []rtwire.Box{{MinX: 0, MinY: 0, MaxX: 1, MaxY: 1}}}
+		sz := finalSize(h)
+		h.KQs = []rtwire.KQ{{X: 1, Y: 1, K: sz}, {X: 5, Y: 5, K: sz + 3}, {X: 0, Y: 0, K: 0}, {X: 8, Y: 2, K: sz - 1}, {X: 8, Y: 2, K: 1}}
+		hs = append(hs, h)
+	}
+	// sub-unit data: two groups inside the unit square (squared distance < distance)
+	{
+		var pool []rtwire.Box
+		var ops []rtwire.Op
+		for i := 0; i < 5; i++ {
+			a := float64(i) / 64
+			pool = append(pool, rtwire.Box{MinX: a, MinY: 0, MaxX: a, MaxY: 0})
+			pool = append(pool, rtwire.Box{MinX: 0.5 + a, MinY: 0.5, MaxX: 0.5 + a, MaxY: 0.5})
+		}
+		for i := range pool {
+			ops = append(ops, rtwire.Op{ID: i})
+		}
+		h := &rtwire.Hist{Class: "nn-corpus-subunit", Min: 2, Max: 4, Kind: "ptr", Pool: pool, Ops: ops, Scale: 1.0 / 64,
+			Queries: []rtwire.Box{{MinX: 0, MinY: 0, MaxX: 1, MaxY: 1}}}
+		addQueries(r, h, 14)
+		h.KQs = append(h.KQs, rtwire.KQ{X: 0.25, Y: 0.125, K: 2}, rtwire.KQ{X: 0.25, Y: 0.25, K: 3}, rtwire.KQ{X: 0.375, Y: 0.25, K: 6})
+		hs = append(hs, h)
+	}
 	n := 500
 	if tier == "thorough" {
 		n = 6000
@@ -85,7 +125,11 @@ func gen(seed uint64, tier string) []*rtwire.Hist {
 		kind := rtwire.Kinds[(i/len(rtwire.Params))%len(rtwire.Kinds)]
 		var h *rtwire.Hist
 		size := 6 + r.Intn(34)
-		switch i % 5 {
+		switch i % 6 {
+		case 5: // duplicates of few objects, inserted and deleted
+			h = rtwire.GenHist(r, 4, par, kind, size, 1)
+			h.Ops = h.Ops[:len(h.Ops)*(2+r.Intn(3))/5]
+			h.Class = fmt.Sprintf("nn-dups-%s-m%dM%d", kind, par[0], par[1])
 		case 0, 1, 2: // grow only
 			h = rtwire.GenHist(r, 3, par, kind, size, 1)
 			// keep a prefix that is mostly inserts
